@@ -69,6 +69,32 @@ def plugin_configs(tier):
     return out
 
 
+def settings_via_config_file(ctx):
+    """Turn the (name, dict) list into a server configuration file and let the real KmipServerConfig parse it back:
+    the auth_settings handed to the session are then exactly what a deployed server would hand over."""
+    import configparser
+    from kmip.services.server import config as server_config
+
+    def convert(settings):
+        if any(not isinstance(v, str) for _, conf in settings for v in conf.values()):
+            return settings                                   # a non-string value cannot come from a file
+        if len({name for name, _ in settings}) != len(settings):
+            return settings                                   # duplicate section names are a configparser error
+        text = '[server]\nhostname=127.0.0.1\n'
+        for name, conf in settings:
+            text += '[%s]\n' % name + ''.join('%s=%s\n' % kv for kv in conf.items())
+        path = os.path.join(str(ctx.work), 'server.conf')
+        with open(path, 'w') as f:
+            f.write(text)
+        parser = configparser.ConfigParser()
+        parser.read(path)
+        cfg = server_config.KmipServerConfig()
+        cfg.parse_auth_settings(parser)
+        ctx.count('settings.via-config-file')
+        return cfg.settings['auth_plugins']
+    return convert
+
+
 def cert_shapes(tier):
     out = [('absent', None)]
     ekus = ['absent', 'server', 'client'] + ([] if tier == 'quick' else ['both'])
@@ -160,7 +186,8 @@ def run(ctx):
         'enable_tls_client_auth {on, off} x plugin configuration {none; disabled 4 ways; unsupported/prefix names; one SLUGS '
         'block with each of 13 service behaviours (200, no groups key, empty groups, 404 user, 404 groups, unreachable, groups unreachable, bad JSON, 500/204 user, 403/500 groups) or no/'
         'non-string url; two blocks over the product of behaviours; mixed unsupported/disabled/enabled} x one connection '
-        '[valid Create, malformed frame, valid Get] against the real session with a real engine.  Every cell is run; a case is '
+        '[valid Create, malformed frame, valid Get] against the real session with a real engine; for every second cell the '
+        'auth_settings are written to a server configuration file and read back by the real KmipServerConfig.  Every cell is run; a case is '
         'distinct by (certificate shape, flag, configuration).')
     ctx.regen(only=['enums'])
     ctx.prove('props/C17.v')
@@ -168,6 +195,7 @@ def run(ctx):
     seed_path, info = c12.make_seed_db(ctx.work)
     pool = c12.Pool(ctx, seed_path)
     cases, meta = [], []
+    via_config = settings_via_config_file(ctx)
     try:
         px = pool.fresh()
         b = kdrv.Engine.build
@@ -183,7 +211,7 @@ def run(ctx):
             sizes = [len(s)] if n % 3 else [8, len(s) - 8]
             spec = sessdrv.default_spec(s, sizes, cert=cert, tls=tls, plugins=plugins)
             c0 = len(px.calls)
-            obs, _ = sessdrv.run_spec(px, spec)
+            obs, _ = sessdrv.run_spec(px, spec, settings_from=via_config if n % 2 else None)
             calls = px.calls[c0:]
             oracle(ctx, label, spec, obs)
             if len(obs['frames']) != 3 or obs['end'] != 'closed':
